@@ -26,7 +26,8 @@ def toksStr : Option (List Tok) → String
 def parseNats (s : String) : Option (List Nat) := (s.splitOn ",").mapM String.toNat?
 
 /-- fields: tmpl fqname shellName stdout stderr workdir threadEnvs envs cmd argv
-nums(threads,mem,vmem,threadsPerJob,memPerJob,extraVmem,memPerCore,alwaysVmem) account special mappings resOpt -/
+nums(threads,mem,vmem as the decimal IEEE-754 bit patterns of the float64 requests,
+threadsPerJob,memPerJob,extraVmem,memPerCore,alwaysVmem) account special mappings resOpt -/
 def parseJob : List String → Option JobIn
   | [tmpl, fq, sh, so, se, wd, tenv, envs, cmd, argv, nums, acct, spec, maps, ro] => do
     let ns ← parseNats nums
@@ -35,7 +36,8 @@ def parseJob : List String → Option JobIn
       pure { tmpl := ← bytesOfHex tmpl, fqname := ← bytesOfHex fq, shellName := ← bytesOfHex sh,
              stdout := ← bytesOfHex so, stderr := ← bytesOfHex se, workdir := ← bytesOfHex wd,
              threadEnvs := ← parseHexList tenv, envs := ← parsePairs envs, cmd := ← bytesOfHex cmd,
-             argv := ← parseHexList argv, threads := t, memGB := m, vmemGB := v, threadsPerJob := tpj,
+             argv := ← parseHexList argv, threads := Float.ofBits t.toUInt64, memGB := Float.ofBits m.toUInt64,
+             vmemGB := Float.ofBits v.toUInt64, threadsPerJob := tpj,
              memGBPerJob := mpj, extraVmemGB := ex, memGBPerCore := mpc, alwaysVmem := av != 0,
              account := ← bytesOfHex acct, special := ← bytesOfHex spec, mappings := ← parsePairs maps,
              resOpt := ← bytesOfHex ro }
